@@ -42,6 +42,7 @@ def run(model, res, tier):
     H.safely(res, 'R1', 'delegation', _delegation, model, res)
     H.safely(res, 'R1', 'text_of_number', _text_of_number, model, res)
     H.safely(res, 'R1', 'clean_filter', _clean_filter, model, res)
+    H.safely(res, 'R6', 'trim', _trim, model, res)
     keys = []
     for n in ('LEFT', 'RIGHT', 'MID', 'SUBSTITUTE', 'CONCATENATE', 'TEXTJOIN', 'UPPER', 'LOWER', 'PROPER', 'TRIM', 'CLEAN', 'LEN', 'CHAR', 'CODE'):
         m, f = model.registered(n)
@@ -330,6 +331,50 @@ def _joins(model, res, E):
     outs = _runs(model, 'TEXTJOIN', lambda: [Sym('int', 'D'), Const(True), Sym('str', 'a')])
     bad = [o for o in outs if not (o.kind == 'return' and isinstance(o.value, Err) and o.value.name == E['#VALUE!'])]
     res.ob('R4', 'TEXTJOIN', 'non-text delimiter gives #VALUE!', not bad, H.describe(outs))
+
+
+TRIM_TABLE = (
+    # text, TRIM(text): leading / trailing spaces go, runs of spaces between words become one space - and nothing else changes
+    ('  a   b  ', 'a b'), ('a b', 'a b'), ('', ''), ('    ', ''), (' a', 'a'), ('a  ', 'a'), ('a  b   c', 'a b c'),
+    # tabs, line breaks and no-break spaces are not spaces
+    ('a\tb', 'a\tb'), ('a \t b', 'a \t b'), ('a\n\nb', 'a\n\nb'), ('\ta', '\ta'), ('a\n', 'a\n'), (' \ta\t ', '\ta\t'),
+    ('\xa0a\xa0', '\xa0a\xa0'), ('a\xa0\xa0b', 'a\xa0\xa0b'), ('a\u2003b', 'a\u2003b'),
+)
+WHITESPACE_CLASS_CALLS = ('strip', 'lstrip', 'rstrip', 'split', 'rsplit')
+
+
+def _trim(model, res):
+    """R6 (TRIM): only the space character is surplus.  Decided on a table of constant texts (folding of pure text / re functions on
+    constants in the interpreter); the construct named in the report is the whitespace-class operation found in TRIM's code."""
+    m, f = model.registered('TRIM')
+    # operations on the whole whitespace class: strip() / split() without an argument, \s in a pattern
+    suspects = []
+    for g in [f] + [h for q, h in m.functions.items() if '.' not in q and any(
+            isinstance(x, ast.Call) and isinstance(x.func, ast.Name) and x.func.id == q for x in ast.walk(f))]:
+        for x in ast.walk(g):
+            if isinstance(x, ast.Call) and isinstance(x.func, ast.Attribute) and x.func.attr in WHITESPACE_CLASS_CALLS and not x.args and not x.keywords:
+                suspects.append((x, '%s() without an argument works on every whitespace character' % x.func.attr))
+            if isinstance(x, ast.Constant) and isinstance(x.value, str) and '\\s' in x.value:
+                suspects.append((x, 'the pattern %r matches every whitespace character' % x.value))
+    n = 0
+    for text, want in TRIM_TABLE:
+        try:
+            outs = _runs(model, 'TRIM', lambda: [Const(text)])
+        except Unmodelled as e:
+            res.ob('R6', 'TRIM', {'text': text}, True, 'undecided: %s' % e)
+            continue
+        if len(outs) != 1 or outs[0].imprecise or outs[0].kind != 'return' or not isinstance(outs[0].value, Const):
+            res.ob('R6', 'TRIM', {'text': text}, True, 'undecided: %s' % '; '.join(H.describe(outs))[:100])
+            continue
+        got = outs[0].value.value
+        n += 1
+        res.ob('R6', 'TRIM', {'text': text, 'result': got}, got == want)
+        if got != want:
+            node, why = suspects[0] if suspects else (f, 'no whitespace-class operation recognised')
+            res.violation('R6', 'function:TRIM:only-spaces', m.where(node),
+                          'TRIM(%r) gives %r; TRIM removes leading and trailing spaces and squeezes runs of spaces to one - a tab, a line break or a '
+                          'no-break space is not a space, so the result must be %r (%s)' % (text, got, want, why), func=f.name)
+    res.soft_floor('TRIM table rows decided', n, 12)
 
 
 def _delegation(model, res):
